@@ -142,12 +142,14 @@ NewRec(f, fd, probe) ==
    sentopts |-> FALSE, lname |-> f.lname, name |-> f.name]
 
 (* a probe copy accompanies a first attempt (just transmitted, or just queued on a TCP connection)
-   and goes to a failed server whose retry delay has passed, other than the one the user query uses *)
+   and goes to a failed server whose retry delay has passed, other than the one that attempt uses.  The attempt may
+   be that of an earlier probe copy of the same request: a probe answered with a truncated reply is repeated over TCP
+   like any query, to the best server, and that is a first attempt too. *)
 ProbeOk(f, dest) ==
   /\ cfg.retrychance # 0
   /\ srv[dest].fails > 0
   /\ now >= srv[dest].nextRetry
-  /\ \E id \in Live(f.t, f.qt) :
+  /\ \E id \in {x \in DOMAIN q : q[x].t = f.t /\ q[x].qt = f.qt} :
         /\ q[id].try = 0
         /\ \/ (q[id].st = "inflight" /\ q[id].srv # dest /\ q[id].sentAt = now)
            \/ (q[id].st = "tosend" /\ q[id].tcp)
@@ -338,8 +340,9 @@ HEnv(e) ==
 OpenFailed(e) ==
   LET tcpopen == IF e.op = "open" THEN e.tcp = 1 ELSE (e.fd \in DOMAIN fdi /\ fdi[e.fd].tcp) IN
   \* not modelled: a second failure before the first is attributed.  Which of several waiting queries made the attempt
-  \* cannot be told from the trace: the notification explores every candidate (HSrv)
-  IF openfail # "" THEN OutOfScope
+  \* cannot be told from the trace: the notification explores every candidate (HSrv); for TCP, where queries may also
+  \* have been queued silently on an existing connection, that is not attempted
+  IF openfail # "" \/ (tcpopen /\ Cardinality({id \in DOMAIN q : q[id].st = "tosend"}) > 1) THEN OutOfScope
   \* a TCP connection attempt that fails while removed servers are still being destroyed: which server's queued
   \* queries it concerns is not modelled
   ELSE IF tcpopen /\ Dying # {} THEN OutOfScope
